@@ -520,8 +520,10 @@ const wallHasMonotonic = uint64(1) << 63
 func timeNow(w *Worker, fr *frame, args []Value) (Value, bool) {
 	if w.inSetup || w.concrete || w.E.Cfg.ClockMode == "" {
 		// fixed instant: 2025-01-01T00:00:00Z, no monotonic reading
-		w.stub("time.Now (fixed instant)")
-		return Struct{mkInt(64, 0), mkInt(64, 63871286400+int64u(w.clockTick())), (*Value)(nil)}, true
+		// fixed instants one second apart, each 600 ms into its second (so that
+		// rounding instead of truncating the export time shows)
+		w.stub("time.Now (fixed instants one microsecond apart, 600 ms into one second)")
+		return Struct{mkInt(64, 600_000_000+uint64(w.clockTick())*1000), mkInt(64, 63871286400), (*Value)(nil)}, true
 	}
 	if w.E.Cfg.ClockMode == "frozen" {
 		// the clock stands still; harnesses move time by shifting deadlines
